@@ -163,10 +163,24 @@ impl OpPattern {
                 if patterns.len() == nodes.len()
                     && match_pattern_set(&patterns, &nodes, graph, symbols)
                 {
-                    return true;
+                    return constants_preserve_rank(&patterns, &nodes, graph);
                 }
             }
         }
+
+        if !self.inputs_match(node, graph, symbols) {
+            return false;
+        }
+
+        let patterns: PatternVec = self.inputs.iter().collect();
+        let nodes: NodeIdVec = node.input_ids().iter().flatten().copied().collect();
+        constants_preserve_rank(&patterns, &nodes, graph)
+    }
+
+    /// Match the inputs of `node` against the input patterns, without
+    /// flattening of associative chains.
+    fn inputs_match(&self, node: &OperatorNode, graph: &Graph, symbols: &mut SymbolMap) -> bool {
+        let op = node.operator();
 
         // For commutative binary operators, we allow the pattern to match
         // either way around.
@@ -227,6 +241,52 @@ fn flatten_associative_pattern_impl<'a>(
     } else {
         patterns.push(pat);
     }
+}
+
+/// Check that constants matched by [`ConstantPattern`]s do not raise the rank of
+/// the result of an elementwise operation.
+///
+/// `nodes` are the operands of an elementwise operator (or a flattened chain of
+/// them) that matched `patterns`. A constant pattern such as the `0.5` in
+/// `x * 0.5` matches single-element tensors of any rank. If such a tensor has
+/// more dimensions than every other operand, broadcasting gives the result a
+/// higher rank than a scalar would, so the subgraph is not equivalent to the
+/// fused operator.
+///
+/// Returns true if there are no such constants, or if another operand is known
+/// to have at least as many dimensions.
+fn constants_preserve_rank(patterns: &[&Pattern], nodes: &[NodeId], graph: &Graph) -> bool {
+    let const_patterns: SmallVec<[&ConstantPattern; 2]> = patterns
+        .iter()
+        .filter_map(|pat| match &*pat.kind {
+            PatternKind::Constant(const_pat) => Some(const_pat),
+            _ => None,
+        })
+        .collect();
+    if const_patterns.is_empty() {
+        return true;
+    }
+
+    let mut const_ndim = 0;
+    let mut other_ndim: Option<usize> = None;
+    for &node_id in nodes {
+        match graph.get_node(node_id) {
+            Some(Node::Constant(const_node))
+                if const_node.ndim() > 0 && const_patterns.iter().any(|p| p.matches(const_node)) =>
+            {
+                const_ndim = const_ndim.max(const_node.ndim());
+            }
+            Some(Node::Constant(const_node)) => {
+                other_ndim = other_ndim.max(Some(const_node.ndim()));
+            }
+            Some(Node::Value(value)) => {
+                other_ndim = other_ndim.max(value.ndim());
+            }
+            _ => {}
+        }
+    }
+
+    const_ndim == 0 || other_ndim.is_some_and(|ndim| ndim >= const_ndim)
 }
 
 /// Flatten the graph subtree rooted at `node`, descending recursively through
